@@ -1191,10 +1191,13 @@ type Reference struct {
 }
 
 func (r Reference) ObjValue() Object {
-	if log.LogDebug() {
-		log.Debugf("Reference Value() %s -> %s", r.Name, r.RefEnv.store[r.Name].Inspect())
+	v, ok := r.RefEnv.store[r.Name]
+	if !ok { // was deleted (del) since the reference was made.
+		return Error{Value: "reference to deleted identifier " + r.Name}
 	}
-	v := r.RefEnv.store[r.Name]
+	if log.LogDebug() {
+		log.Debugf("Reference Value() %s -> %s", r.Name, v.Inspect())
+	}
 	if v == r {
 		panic("Self reference")
 	}
